@@ -839,9 +839,12 @@ ElemNumber::getMatchingAncestors(
             break;
         }
 
-        assert(0 != countMatchPattern);
-
-        if(countMatchPattern->getMatchScore(node, *this, executionContext) !=
+        // There is no default pattern for a node that is not part of
+        // the XPath data model, such as the document type node of a
+        // Xerces DOM.  Like the other users of the pattern, treat that
+        // as a match.
+        if(0 == countMatchPattern ||
+           countMatchPattern->getMatchScore(node, *this, executionContext) !=
                 XPath::eMatchScoreNone)
         {
             ancestors.addNode(node);
